@@ -66,7 +66,9 @@ using namespace cds_utils;
 #include "utils/Coder/StatCoder.h"
 #include "utils/LogSequence.h"
 
+#ifndef MEMALLOC
 #define MEMALLOC 32768
+#endif
 
 class StringDictionaryRPFC : public StringDictionary {
 public:
